@@ -142,6 +142,11 @@ def build(case):
 
 def run_impl(rng, case):
     Fo = build(case)
+    return Fo, observe_instance(rng, Fo)
+
+
+def observe_instance(rng, Fo, allow_malformed=True):
+    """Bookkeeping attributes of the instance as it is NOW and one interpolate() call."""
     r = dict(req=[float(x) for x in Fo.freq_required],
              coarse=[float(x) for x in Fo.freq_coarse],
              compute=[float(x) for x in Fo.freq_compute],
@@ -154,7 +159,7 @@ def run_impl(rng, case):
     nc = len(r['compute'])
     # data for freq_compute (valid), sometimes of a wrong length (malformed stream)
     nd = nc
-    malformed = rng.random() < 0.12
+    malformed = allow_malformed and rng.random() < 0.12
     if malformed:
         nd = max(0, nc + rng.choice([-1, 1, 2]))
     fdata = np.array([complex(K.dy(rng, bits=3) + 0.0625 * (j + 1), K.dy(rng, bits=3)
@@ -168,6 +173,7 @@ def run_impl(rng, case):
             warnings.simplefilter('ignore')
             out = Fo.interpolate(fdata)
         r['out'] = out
+        r['out_copy'] = np.array(out, copy=True)     # as returned, before any later call
         r['err'] = None
     except Exception as e:      # noqa
         # where was it raised?  inside scipy = the oracle refuses its input (too few points
@@ -178,7 +184,7 @@ def run_impl(rng, case):
         inside = tb.tb_frame.f_code.co_filename
         r['out'] = None
         r['err'] = ('oracle:' if 'scipy' in inside else '') + type(e).__name__
-    return Fo, r
+    return r
 
 
 # ------------------------------------------------------------------ Coq side
@@ -368,6 +374,250 @@ def correspondence_fourier(ctx, dis, hist):
     return len(cases), len(distinct), samples
 
 
+
+# ------------------------------------------------------------------ histories
+def state_kwargs(st):
+    kw = {}
+    if st['every'] is not None:
+        kw['every_x_freq'] = st['every']
+    if st['input'] is not None:
+        kw['input_freq'] = np.array(st['input'])
+    return kw
+
+
+def fresh_instance(st):
+    """A new Fourier instance with the CURRENT parameters of a history."""
+    import emg3d
+    with warnings.catch_warnings():
+        warnings.simplefilter('ignore')
+        return emg3d.Fourier(time=np.array(st['time']), fmin=st['fmin'], fmax=st['fmax'],
+                             signal=st['signal'], ft=st['ft'], ftarg=dict(st['ftarg']), verb=0,
+                             **state_kwargs(st))
+
+
+def pick_in_band(rng, Fo, lower):
+    """A required frequency strictly inside the current band (so that lowering fmax /
+    raising fmin to it leaves previously filled entries outside the new band)."""
+    req = np.sort(np.asarray(Fo.freq_required, float))
+    inside = req[(req > Fo.fmin) & (req < Fo.fmax)]
+    if inside.size < 3:
+        return None
+    k = rng.randrange(1, inside.size - 1)
+    return float(inside[k])
+
+
+def apply_op(rng, Fo, st, kind):
+    """Apply one public setter to the instance; returns the op (JSON-able) or None."""
+    with warnings.catch_warnings():
+        warnings.simplefilter('ignore')
+        if kind == 'fmax':
+            x = pick_in_band(rng, Fo, True)
+            if x is None:
+                return None
+            Fo.fmax = x
+            st['fmax'] = x
+            return {'op': 'SetFmax', 'x': x}
+        if kind == 'fmin':
+            x = pick_in_band(rng, Fo, False)
+            if x is None:
+                return None
+            Fo.fmin = x
+            st['fmin'] = x
+            return {'op': 'SetFmin', 'x': x}
+        if kind == 'widen':
+            req = np.asarray(Fo.freq_required, float)
+            lo, hi = float(req.min()) / 3, float(req.max()) * 3
+            Fo.fmin, Fo.fmax = lo, hi
+            st['fmin'], st['fmax'] = lo, hi
+            return [{'op': 'SetFmin', 'x': lo}, {'op': 'SetFmax', 'x': hi}]
+        if kind == 'every':
+            k = rng.choice([1, 2, 3])
+            Fo.every_x_freq = k
+            st['every'], st['input'] = k, None
+            return {'op': 'SetEvery', 'k': k}
+        if kind == 'input':
+            m = rng.randint(6, 12)
+            lo, hi = np.log10(Fo.fmin) - rng.uniform(0, 0.5), np.log10(Fo.fmax) + rng.uniform(0, 0.5)
+            inp = [float(x) for x in np.logspace(lo, hi, m)]
+            Fo.input_freq = np.array(inp)
+            st['every'], st['input'] = None, inp
+            return {'op': 'SetInput', 'l': inp}
+        if kind == 'time':
+            t = np.asarray(Fo.time, float)
+            new = [float(x) for x in t[:-1] * rng.choice([0.5, 2.0, 1.5])] if t.size > 2 \
+                else [float(x) for x in t * 2.0]
+            Fo.time = np.array(new)
+            st['time'] = new
+            return {'op': 'SetReq', 'via': 'time', 'time': new,
+                    'l': [float(x) for x in Fo.freq_required]}
+        if kind == 'ftarg':
+            if st['ft'] == 'fftlog':
+                ftarg = dict(st['ftarg'], pts_per_dec=rng.choice([4, 6, 7]))
+            else:
+                ftarg = dict(st['ftarg'], dlf=rng.choice(FILTERS))
+            Fo.fourier_arguments(st['ft'], dict(ftarg))
+            st['ftarg'] = ftarg
+            return {'op': 'SetReq', 'via': 'fourier_arguments', 'ft': st['ft'], 'ftarg': ftarg,
+                    'l': [float(x) for x in Fo.freq_required]}
+    return None
+
+
+def run_history(rng, plan=None):
+    """One history on ONE Fourier instance: interpolate; setter; interpolate; ...
+    Returns dict(init, steps=[{ops, r, state}], returned arrays and their copies)."""
+    case = gen_case(rng)
+    Fo0 = make_fourier(case)
+    req = np.asarray(Fo0.freq_required, float)
+    case['fmin'], case['fmax'] = float(req.min()) / 3, float(req.max()) * 3     # wide band first
+    case['every_x_freq'], case['input_freq'], case['coarse'] = None, None, 'none'
+    st = dict(time=case['time'], fmin=case['fmin'], fmax=case['fmax'], signal=case['signal'],
+              ft=case['ft'], ftarg=dict(case['ftarg']), every=None, input=None)
+    Fo = build(case)
+    init = dict(st, req=[float(x) for x in Fo.freq_required])
+    steps = [dict(ops=[], r=observe_instance(rng, Fo, False), state=dict(st))]
+    kinds = plan or [rng.choice(['fmax', 'fmax', 'fmin', 'every', 'input', 'time', 'ftarg',
+                                 'widen']) for _ in range(rng.randint(2, 4))]
+    for kind in kinds:
+        op = apply_op(rng, Fo, st, kind)
+        if op is None:
+            continue
+        ops = op if isinstance(op, list) else [op]
+        steps.append(dict(ops=ops, r=observe_instance(rng, Fo, False), state=dict(st)))
+    return dict(init=init, steps=steps, Fo=Fo, kinds=kinds)
+
+
+def coq_history(h):
+    """The same history in the Coq model: state after each prefix of the op list."""
+    init = h['init']
+    L = [K.CASE_HEADER, "From V Require Import Model.Fourier.",
+         "Definition ob (b : bool) : Z := if b then 1 else 0.",
+         "Definition on (o : option nat) : Z := match o with Some k => Z.of_nat k | None => (-1)%Z end.",
+         "Definition ol (o : option (list Q)) : Z := match o with Some l => Z.of_nat (List.length l) | None => (-1)%Z end.",
+         f"Definition s0 : @fstate Q := finit {V.q(init['fmin'])} {V.q(init['fmax'])} None None "
+         f"{qlist(init['req'])}."]
+    allops = []
+    for k, stp in enumerate(h['steps']):
+        for o in stp['ops']:
+            if o['op'] in ('SetFmin', 'SetFmax'):
+                allops.append(f"{o['op']} {V.q(o['x'])}")
+            elif o['op'] == 'SetEvery':
+                allops.append(f"SetEvery (Some {int(o['k'])}%nat)")
+            elif o['op'] == 'SetInput':
+                allops.append(f"SetInput (Some {qlist(o['l'])})")
+            else:
+                allops.append(f"SetReq {qlist(o['l'])}")
+        fd = '[' + '; '.join(f"({V.q(a)}, {V.q(b)})" for a, b in stp['r']['fdata']) + ']'
+        L.append(f"Definition s{k}_ : @fstate Q := frun s0 [{'; '.join(allops)}].")
+        s_ = f"s{k}_"
+        L += [f"Definition coarse{k} := freq_coarse (s_every {s_}) (s_inp {s_}) (s_req {s_}).",
+              f"Eval vm_compute in (on (s_every {s_}), ol (s_inp {s_}), Z.of_nat (List.length (s_req {s_}))).",
+              f"Eval vm_compute in map ob (mask_extrapolate Qle_bool (s_fmin {s_}) (s_req {s_})).",
+              f"Eval vm_compute in map ob (mask_interpolate Qle_bool (s_fmin {s_}) (s_fmax {s_}) (s_req {s_})).",
+              f"Eval vm_compute in map ob (mask_zero Qle_bool (s_fmin {s_}) (s_fmax {s_}) (s_req {s_})).",
+              f"Eval vm_compute in map ob (mask_compute Qle_bool (s_fmin {s_}) (s_fmax {s_}) coarse{k}).",
+              f"Eval vm_compute in map out_q coarse{k}.",
+              f"Eval vm_compute in map out_q (freq_compute Qle_bool (s_fmin {s_}) (s_fmax {s_}) coarse{k}).",
+              f"Eval vm_compute in match interpolate_state (O := QOps) Qle_bool (fun x => x) "
+              f"(fun _ _ _ => {SPL}%Q) (fun _ _ _ => {PCH}%Q) {V.q(1e-100)} {s_} {fd} "
+              "with Some o => (1%Z, map out_c o) | None => (0%Z, nil) end."]
+    return '\n'.join(L) + '\n'
+
+
+def history_brief(h):
+    return dict(init={k: h['init'][k] for k in ('time', 'fmin', 'fmax', 'signal', 'ft', 'ftarg')},
+                history=[[{k: (v if k != 'l' else f"<{len(v)} frequencies>") for k, v in o.items()}
+                          for o in stp['ops']] + ['interpolate'] for stp in h['steps']])
+
+
+def history_property(h):
+    """Independent of the Coq model: every answer equals that of a FRESH instance with
+    the current parameters; arrays returned earlier are not modified / shared."""
+    bad = []
+    for k, stp in enumerate(h['steps']):
+        r = stp['r']
+        Ff = fresh_instance(stp['state'])
+        if not np.array_equal(np.asarray(Ff.freq_required), np.array(r['req'])):
+            bad.append(f"step {k}: freq_required differs from a fresh instance")
+            continue
+        if r['out'] is None:
+            continue
+        fd = np.array([complex(a, b) for a, b in r['fdata']])
+        try:
+            with warnings.catch_warnings():
+                warnings.simplefilter('ignore')
+                want = Ff.interpolate(fd)
+        except Exception:      # noqa
+            continue
+        if not np.array_equal(r['out_copy'], want):
+            i = int(np.flatnonzero(r['out_copy'] != want)[0])
+            bad.append(f"step {k}: interpolate differs from a fresh instance with the current "
+                       f"parameters at index {i} (freq {r['req'][i]!r}, fmax {stp['state']['fmax']!r}): "
+                       f"{r['out_copy'][i]} vs {want[i]}")
+    outs = [(k, s['r']) for k, s in enumerate(h['steps']) if s['r']['out'] is not None]
+    for k, r in outs:
+        if not np.array_equal(r['out'], r['out_copy']):
+            bad.append(f"array returned by interpolate() at step {k} was modified by a later call")
+    for a in range(len(outs)):
+        for b in range(a + 1, len(outs)):
+            if np.shares_memory(outs[a][1]['out'], outs[b][1]['out']):
+                bad.append(f"interpolate() at steps {outs[a][0]} and {outs[b][0]} returned arrays "
+                           "sharing memory")
+    return bad
+
+
+def correspondence_history(ctx, dis, hist):
+    rng = ctx.rng
+    n = 40 if ctx.thorough else 10
+    hs = []
+    # deterministic first history: wide band; lower fmax; (raise fmin)
+    plans = [['fmax'], ['fmin', 'fmax'], ['fmax', 'widen', 'every']]
+    for c in range(n):
+        hs.append(run_history(rng, plans[c] if c < len(plans) else None))
+    res = V.coq_eval_many([(f"c20_h_{c}", coq_history(h)) for c, h in enumerate(hs)])
+    nsteps, distinct = 0, set()
+    for c, h in enumerate(hs):
+        brief = history_brief(h)
+        for b in history_property(h):
+            dis.append({'what': 'history on one Fourier instance: ' + b,
+                        'signature': HISTORY_HIT, 'case': brief, 'impl': b,
+                        'model': 'answer of the current parameters only; returned arrays are fresh'})
+        rc, out = res[f"c20_h_{c}"]
+        if rc != 0:
+            dis.append({'what': 'Coq history model evaluation failed', 'case': brief, 'impl': '',
+                        'model': out[-1200:]})
+            continue
+        answers = V.eval_answers(out)
+        if len(answers) != 8 * len(h['steps']):
+            dis.append({'what': 'Coq history model: unexpected number of answers', 'case': brief,
+                        'impl': 8 * len(h['steps']), 'model': len(answers)})
+            continue
+        for k, stp in enumerate(h['steps']):
+            r = stp['r']
+            a = answers[8 * k: 8 * k + 8]
+            import re
+            ev, ni, nr = (int(x) for x in re.findall(r'-?\d+', a[0]))
+            impl_state = (-1 if r['every'] is None else int(r['every']),
+                          len(stp['state']['input']) if r['has_input'] else -1, len(r['req']))
+            if (ev, ni, nr) != impl_state:
+                dis.append({'what': f'history step {k}: coarse options / number of required '
+                                    'frequencies differ from the model state',
+                            'case': brief, 'impl': impl_state, 'model': (ev, ni, nr)})
+                continue
+            rr = dict(r, out=r['out_copy'] if r['out'] is not None else None)
+            try:
+                compare_case({}, rr, a[1:], dis, dict(brief, step=k))
+            except Exception as e:      # noqa
+                dis.append({'what': 'history comparison failed: ' + type(e).__name__ + ': '
+                                    + str(e)[:200], 'case': brief, 'impl': '', 'model': ''})
+            nsteps += 1
+        distinct.add(tuple(o['op'] for stp in h['steps'] for o in stp['ops']))
+        for stp in h['steps']:
+            for o in stp['ops']:
+                hist['history op ' + o['op']] = hist.get('history op ' + o['op'], 0) + 1
+    hist['history interpolate calls'] = nsteps
+    return len(hs), len(distinct), nsteps
+
+
 # --------------------------------------------- PCHIP first interval vs scipy
 def correspondence_pchip(ctx, dis, hist):
     from scipy.interpolate import PchipInterpolator
@@ -457,9 +707,10 @@ def correspondence(ctx):
         ctx.notes.append('standard DLF probe crashed: ' + repr(e))
     n1, d1, samples = correspondence_fourier(ctx, dis, hist)
     n2, d2 = correspondence_pchip(ctx, dis, hist)
+    n3, d3, nsteps = correspondence_history(ctx, dis, hist)
     return {
-        'evaluations': n1 + n2,
-        'distinct_nontrivial': d1 + d2,
+        'evaluations': n1 + n2 + nsteps,
+        'distinct_nontrivial': d1 + d2 + d3,
         'rule': ("Fourier cases: random log-spaced time vector (2..6 times), signal in {-1,0,1}, "
                  "transform in {dlf lagged, dlf splined, fftlog} with 3 filters / "
                  "random fftlog arguments, band edges either exactly on a required frequency (50%) "
@@ -475,9 +726,16 @@ def correspondence(ctx):
                  "n_required) with at least two non-empty groups. PCHIP cases: 2..5 dyadic knots, "
                  "30% with equal first values, 30% monotone; model pchip_first / pchip_two at 9 "
                  "points of the first interval vs scipy (1e-9); scipy end slopes checked to lie in "
-                 "the Fritsch-Carlson box."),
+                 "the Fritsch-Carlson box. Histories on ONE instance: wide band, interpolate, then "
+                 "2-4 public setters (fmax lowered / fmin raised to a required frequency inside the "
+                 "band, band widened, every_x_freq, input_freq, time, fourier_arguments), "
+                 "interpolate after each; the first three histories are fixed (lower fmax; raise "
+                 "fmin then lower fmax; lower, widen, every_x_freq). Every answer is compared with "
+                 "the Coq state machine (frun over the same op list) and with a FRESH instance of "
+                 "the current parameters (bitwise); arrays returned earlier must be unmodified and "
+                 "must not share memory with later ones."),
         'samples': samples,
-        'traces_validated_against_impl': n1 + n2,
+        'traces_validated_against_impl': n1 + n2 + n3,
         'histogram': hist,
         'disagreements': dis,
     }
@@ -555,6 +813,16 @@ def search(ctx, broken):
                                   "(freq_coarse differs from freq_required)")]
     except Exception as e:      # noqa
         ctx.notes.append('same-length probe crashed: ' + repr(e))
+    # histories on one instance (deterministic first: lower fmax after a wide band)
+    for c, plan in enumerate([['fmax'], ['fmin', 'fmax'], ['fmax', 'widen', 'every']]
+                             + [None] * (12 if ctx.thorough else 4)):
+        hh = run_history(rng, plan)
+        bad = history_property(hh)
+        if bad:
+            return [dict(kind='history', signature=HISTORY_HIT, **history_brief(hh),
+                         observed='; '.join(bad[:4]),
+                         required='every interpolate() equals that of a fresh instance with the '
+                                  'current parameters; returned arrays are not modified later')]
     for _ in range(n):
         case = complete_case(rng, gen_case(rng))
         h = property_on_case(rng, case)
@@ -566,6 +834,11 @@ def search(ctx, broken):
 
 def replay(ctx, payload):
     fi = payload.get('failing_input')
+    if fi and fi.get('kind') == 'history':
+        for plan in (['fmax'], ['fmin', 'fmax'], ['fmax', 'widen', 'every']):
+            if history_property(run_history(ctx.rng, plan)):
+                return False
+        return True
     if fi and fi.get('kind') == 'same_length_input_freq':
         d = same_length_demo()
         return not (d and d['placed_unchanged'])
@@ -576,6 +849,7 @@ def replay(ctx, payload):
 
 # ---- observation: pass-through chosen by length only ------------------------
 SAMELEN_SIG = "C20: interpolate() selects pass-through by len(freq_coarse) == len(freq_required)"  # historical
+HISTORY_HIT = "interpolate() depends on the history of the Fourier instance"
 SAMELEN_HIT = "data passed through at required frequencies they were not computed for"
 
 
